@@ -116,7 +116,27 @@ func runC12(c *sim.Ctx) {
 		d := append([]byte(nil), sent...)
 		d = append(d, sim.KeyedBytes(uint64(c.Index), 0, st.Choose(9))...)
 		desc := "intact"
-		switch st.Pick(3, 3, 2) {
+		tmode := st.Pick(3, 3, 2, 2)
+		if tmode == 3 {
+			// both: a damaged version word in a header that is also cut short
+			switch st.Choose(3) {
+			case 0:
+				d[0] = st.Byte()
+			case 1:
+				d[0], d[1] = 0, 0
+			case 2:
+				d[st.Choose(2)] ^= byte(1 << uint(st.Choose(8)))
+			}
+			cut := []int{4, 5, 6, 7, 8, 9, 3, 2}[st.Choose(8)]
+			if cut > len(sent) {
+				cut = len(sent)
+			}
+			d = d[:cut]
+			desc = "first-word corruption + cut"
+			c.Count("fault.fired.truncation")
+			c.Count("fault.fired.corruption")
+		}
+		switch tmode {
 		case 1:
 			cut := st.Choose(len(sent) + 1)
 			if st.Chance(1, 2) {
